@@ -17,6 +17,9 @@ ASSUMPTIONS = [
     "host packets well formed with good CRCs; SET_LINE_CODING is sent in its valid form (host-to-device, 7 data "
     "bytes); the host never sends more than max-packet-size OUT data",
     "whether an OUT packet that may not fit the receive FIFO is ACKed or NAKed is C13's subject",
+    "a host may issue CLEAR_FEATURE(ENDPOINT_HALT) for any endpoint address at any time between transfers; it takes "
+    "effect when the host ACKs the status ZLP and resets the data toggle of the named address on both sides, of no "
+    "other address (USB 2.0 9.4.5); only complete transfers are generated (abandoned ones are C14's subject)",
 ]
 
 GD = lambda t, i, l, lang=0: dict(k="ctrl", req=[0x80, 6, (t << 8) | i, lang, l])
@@ -48,6 +51,17 @@ STEPS = {
     "tx_feed_only": [dict(k="feed", ep=4, n=30, last=1)], "in4": [dict(k="in", ep=4, ack=1)], "in4_noack": [dict(k="in", ep=4, ack=0)],
     "sof": [dict(k="sof")],
 }
+# CLEAR_FEATURE(ENDPOINT_HALT), the standard request a host stack issues on a bulk/interrupt endpoint at any time
+# (usb_clear_halt after a cancelled or timed-out transfer, on port re-open): it names ONE endpoint address; the host
+# resets its own toggle for that address only and keeps every other toggle (USB 2.0 9.4.5).  Addresses: both data
+# endpoints (which share number 4), the notification endpoint, and addresses the device does not have -- the other
+# direction of the notification endpoint's number, one-bit neighbours of 4 (5, 12, 0), endpoint 1.
+CLEAR_HALT = {"in4": 0x84, "out4": 0x04, "in3": 0x83, "out3": 0x03, "in5": 0x85, "out5": 0x05, "in12": 0x8C,
+              "out12": 0x0C, "in1": 0x81, "out0": 0x00, "in0": 0x80}
+for _n, _a in CLEAR_HALT.items():
+    STEPS["clear_halt_" + _n] = [dict(k="ctrl", req=[0x02, 1, 0, _a, 0])]
+for _n in ("in4", "out4"):
+    STEPS["clear_halt_" + _n + "_lost_ack"] = [dict(k="ctrl", req=[0x02, 1, 0, CLEAR_HALT[_n], 0], noack=1)]
 NAMES = sorted(STEPS)
 ENUMERATION = ["dev8", "setaddr", "dev18", "qualifier", "cfg9", "cfgfull", "str0", "str2", "str1", "str3", "setcfg", "getcfg"]
 STALLED = {"get_line_coding", "set_control_line_state", "send_break", "send_encapsulated", "class_endpoint_recipient",
@@ -60,6 +74,9 @@ CATEGORIES = [
     ["out0", "out1", "out13", "out13", "out64", "out64x2", "out_repeat"], ["out1", "out13", "out64", "out64x2"],
     ["tx1", "tx20", "tx64", "tx100", "tx_nolast", "tx_feed_only", "in4", "in4_noack"], ["tx1", "tx20", "tx64", "tx100"],
     [n for n in NAMES if n.startswith(("dev", "cfg", "str", "get", "setcfg", "setaddr", "qual"))] + ["notify", "sof"],
+    # clear-halts: the two data endpoint addresses 3 : 2 : everything else 1 each (about half name 0x84 / 0x04)
+    ["clear_halt_in4"] * 4 + ["clear_halt_out4"] * 3 + ["clear_halt_in4_lost_ack", "clear_halt_out4_lost_ack"]
+    + ["clear_halt_" + n for n in sorted(CLEAR_HALT) if n not in ("in4", "out4")],
 ]
 
 
@@ -73,7 +90,11 @@ class Serial(Sub):
             "also with a lost status ACK), the other CDC class requests with and without data stages, vendor and "
             "reserved-type requests, bulk OUT packets of 0/1/13/64 bytes (in sequence and repeated) under generated "
             "rx back-pressure, tx stream transfers of 1/20/64/100 bytes fetched with IN until the endpoint NAKs, IN "
-            "polls of the notification endpoint, SOFs; oracle = independent device model specialised with "
+            "polls of the notification endpoint, SOFs, and complete CLEAR_FEATURE(ENDPOINT_HALT) requests (also with a "
+            "lost status ACK) naming the data-IN address 0x84, the data-OUT address 0x04 (same number, other "
+            "direction), the notification endpoint and absent addresses (0x03, 4's one-bit neighbours 5/12/0, 1) at "
+            "any point between the data transfers -- the host resets its toggle for the named address only and keeps "
+            "all others; oracle = independent device model specialised with "
             "independently built ACM descriptors: descriptor bytes, ZLP/ACK/STALL per stage, data PIDs, tx bytes in "
             "order exactly once, rx stream == acknowledged in-sequence OUT payloads; non-trivial = enumeration "
             "completed AND SET_LINE_CODING accepted AND some other class/vendor request STALLed AND bytes moved in "
@@ -111,6 +132,15 @@ class Serial(Sub):
             return fail(f"tx stream: {len(tx.pkts)} packets were accepted from the stream but only {tx.acked} reached "
                         f"the host although it polled until the endpoint NAKed", signature="tx-data-not-delivered")
         labels = set(n for n in names if n in STALLED or n.startswith(("set_line", "out", "tx")))
+        # clear-halts that completed, by target and by the toggle state they met (the model's own bookkeeping)
+        halts = [d for e, d in run.model.events if e == "clear_halt"]
+        for k, (key, snap) in enumerate(halts):
+            if key not in snap:
+                labels.add("clear-halt-absent-endpoint")
+                continue
+            labels.add(f"clear-halt-ep{key[0]}{key[1]}-at-DATA{snap[key]}")
+            if snap.get((key[0], "out" if key[1] == "in" else "in")) == 1:
+                labels.add(f"clear-halt-ep{key[0]}{key[1]}-other-direction-at-DATA1")
         ev = [e[0] for e in run.model.events]
         enumerated = "address" in ev and "configuration" in ev and all(x in names for x in ("dev18", "cfgfull"))
         if enumerated:
